@@ -401,7 +401,58 @@ def _text_shard(shard: T.Tuple[int, int], ev: Evidence, fails: T.List[Failure]) 
     campaign(strat, check, n, seed, fails)
 
 
+def dsl_family(ctx: Ctx) -> None:
+    """`version_compare` as build definitions call it: on an ordinary string and on meson.version() (a string of its own
+    kind, whose method also feeds the meson_version feature checks) - both have to agree with the order, for single
+    constraints and for constraint lists, in particular around the running version itself."""
+    import os
+    import shutil
+    from harness.core import make_scratch
+    from harness.mesondrv import run_sub, write_tree
+    import mesonbuild.coredata as cd
+    cur = cd.version
+    near = [cur, '0.1', '99', cur + '.1', cur.rsplit('.', 1)[0], '1.0', cur.replace('.', '_')]
+    atoms = [op + sp + v for op in OPS if op for v in near for sp in ('', ' ')]
+    rnd = random.Random(ctx.seed * 13 + 5)
+    lists: T.List[T.List[str]] = [[a] for a in atoms]
+    lists += [[rnd.choice(atoms) for _ in range(rnd.choice([2, 2, 3]))] for _ in range(ctx.n(300, 3000))]
+    # every list once with `!=<running version>` in each position (the constraint that fails for meson.version())
+    lists += [[f'!={cur}', '>=0.1'], ['>=0.1', f'!={cur}'], [f'!=0.1', f'!={cur}', '<99'], [f'!={cur}']]
+    q = lambda x: "'" + x + "'"      # noqa: E731
+    lines = ["project('vc', meson_version: '>=0.1')", "plain = '@0@'.format(meson.version())"]
+    for i, l in enumerate(lists):
+        arg = ', '.join(q(c) for c in l)
+        lines.append(f"message('VC{i}=@0@,@1@'.format(meson.version().version_compare({arg}), plain.version_compare({arg})))")
+    work = make_scratch('c19-dsl')
+    try:
+        write_tree(os.path.join(work, 'src'), {'meson.build': '\n'.join(lines) + '\n'})
+        r = run_sub(['setup', '--backend=none', os.path.join(work, 'bld'), os.path.join(work, 'src')], timeout=600)
+        if r.rc != 0:
+            ctx.fail(Failure('dsl/setup-failed', {'dsl': True, 'lists': lists[:20]}, f'the version_compare project failed to configure:\n{r.text[-1500:]}'))
+            return
+        got = {}
+        for m in r.messages():
+            if m.startswith('VC') and '=' in m:
+                k, v = m[2:].split('=', 1)
+                got[int(k)] = v
+        for i, l in enumerate(lists):
+            want = all(ref_op(next(op for op in sorted(OPS, key=len, reverse=True) if c.startswith(op)),
+                              ref_cmp(cur, c[len(next(op for op in sorted(OPS, key=len, reverse=True) if c.startswith(op))):].strip())) for c in l)
+            exp = 'true' if want else 'false'
+            g = got.get(i)
+            ctx.ev.case({'dsl': l}, nontrivial=len(l) >= 2 or cur in l[0], cls='dsl/version_compare', sample={'constraints': l, 'expected': want})
+            if g != f'{exp},{exp}':
+                which = 'meson.version()' if g is not None and g.split(',')[0] != exp else 'a plain string'
+                ctx.fail(Failure('dsl/version_compare-differs:' + ('meson-version' if which.startswith('meson') else 'plain'),
+                                 {'dsl': True, 'constraints': l},
+                                 f'version_compare({l}) on the running version {cur}: expected {exp} on both, got (meson.version(), plain string) = {g}'))
+                return
+    finally:
+        shutil.rmtree(work, ignore_errors=True)
+
+
 def run(ctx: Ctx) -> None:
+    dsl_family(ctx)
     universe = version_universe(ctx.seed)
     n = len(universe)
     step = (n + 63) // 64
@@ -440,6 +491,10 @@ def run(ctx: Ctx) -> None:
 
 def replay(ctx: Ctx, case: T.Any, doc: dict) -> T.Optional[Failure]:
     import mesonbuild.mesonlib as ml
+    if isinstance(case, dict) and case.get('dsl'):
+        c2 = Ctx(ctx.prop, ctx.tier, ctx.seed)
+        dsl_family(c2)
+        return next(iter(c2.failures.values()), None)
     sig = doc.get('signature', '')
     if sig.startswith('order/transitivity'):
         fails: T.List[Failure] = []
